@@ -35,6 +35,10 @@ class Baton:
         self.ends = []         # order in which machine steps ended (= the schedule as executed)
         self.frozen_mid_step = 0
         self.ran_out_of_turn = 0
+        self.lazy = {}         # thread id -> Thread object not started yet (lifecycle mode)
+        self.live = {}         # started lazily, to be joined when done
+        self.births = 0
+        self.deaths_joined = 0
 
     def _advance(self):
         # called with cv held, when nobody runs: hand the baton to the next scheduled thread that can take it
@@ -44,6 +48,13 @@ class Baton:
             self.pos += 1
         if self.pos < len(self.schedule):
             nxt = self.schedule[self.pos]
+            if nxt in self.lazy:
+                # LIFECYCLE MODE: the thread is created only now - while the threads scheduled before it are in the middle of their
+                # programs (open traces) - and it will be joined as soon as it has finished
+                t = self.lazy.pop(nxt)
+                self.live[nxt] = t
+                t.start()
+                return
             if nxt in self.waiting:
                 self.running = nxt
                 self.pos += 1
@@ -70,6 +81,13 @@ class Baton:
             if not self.cv.wait(self.timeout):
                 raise SchedulerStuck("thread %s stuck at %s (pos %d of %s)" % (me, label, self.pos, self.schedule))
         self.waiting.discard(me)
+        # lifecycle mode: threads that have finished are joined before anybody continues, so that the number of live threads really
+        # drops while the others still have traces open
+        for tid in [t_ for t_ in self.live if t_ in self.done]:
+            th = self.live.pop(tid)
+            if th is not threading.current_thread():
+                th.join(self.timeout)
+                self.deaths_joined += 1
 
     def point(self, me, label=None):
         with self.cv:
@@ -151,14 +169,38 @@ def run_threads(case, Ctx, run_thread):
             sys.settrace(None)
             ids[i] = [x if x is not None else -99 for x in ctx.ids]
             baton.finish(i + 1)
-    ts = [threading.Thread(target=body, args=(i,), daemon=True) for i in range(n)]
-    for t in ts:
-        t.start()
-    baton.start()
-    for t in ts:
-        t.join(120)
-        if t.is_alive():
-            raise SchedulerStuck("thread did not finish")
+    if case.get("lifecycle"):
+        # thread 1's program runs in THIS thread (until another one is born the process has one live thread); the others are started
+        # when the schedule first names them and joined as soon as they are done
+        ts = [threading.Thread(target=body, args=(i,), daemon=True) for i in range(1, n)]
+        for i, t in enumerate(ts):
+            baton.lazy[i + 2] = t
+        baton.births = len(ts)
+        baton.start_lifecycle = True
+        with baton.cv:
+            baton.started = True
+        body(0)
+        for t in ts:
+            if t.ident is None:          # never scheduled: run it now so that its result exists
+                with baton.cv:
+                    for k_, v_ in list(baton.lazy.items()):
+                        if v_ is t:
+                            baton.lazy.pop(k_)
+                t.start()
+                with baton.cv:
+                    baton._advance()
+            t.join(120)
+            if t.is_alive():
+                raise SchedulerStuck("thread did not finish")
+    else:
+        ts = [threading.Thread(target=body, args=(i,), daemon=True) for i in range(n)]
+        for t in ts:
+            t.start()
+        baton.start()
+        for t in ts:
+            t.join(120)
+            if t.is_alive():
+                raise SchedulerStuck("thread did not finish")
     if errs:
         raise SchedulerStuck("; ".join(errs))
     return obs, ids, baton
